@@ -16,6 +16,8 @@ import PaletteModel.OpsDriver
 import PaletteModel.SamplingDriver
 import PaletteModel.HueDriver
 import PaletteModel.Cam16Driver
+import PaletteModel.C12Driver
+import PaletteModel.SimdDriver
 
 open Proto
 
@@ -39,6 +41,9 @@ def dispatch (op : String) (cfg inp outp : List String) : Verdict :=
   | "smpstd" | "smpuni" | "smpmeta" => Sampling.handle op cfg inp outp
   | "hnorm" | "heq" | "hops" | "hrad" | "hcart" | "hcart2" | "hu8" | "hfu8" | "hfmt" | "hconst" => Hue.handle op cfg inp outp
   | "cam16fwd" | "cam16pfx" | "cam16inv" | "cam16ful" | "cam16fxz" | "ucs" => Cam16.handle op cfg inp outp
+  | "hexparse" | "hexfmt" | "pack" | "unpack" | "lpack" | "lunpack" | "intoint" | "fromint"
+  | "named" | "namedentry" | "namedcount" => C12Drv.handle op cfg inp outp
+  | "simd" | "simdpack" | "vmask" => Simd.handle op cfg inp outp
   | _ => if op.startsWith "c10." then OpsDrv.handle (String.ofList (op.toList.drop 4)) cfg inp outp else .bad s!"unknown op {op}"
 
 structure DrvAcc where
